@@ -273,8 +273,10 @@ fn oracle_text_inner(text: &str, out: &mut Vec<Failure>) -> TextFacts {
         }
         let input = lexed.to_input();
         let _ = oq3_parser::verif_take_work();
+        let _ = oq3_parser::verif_take_process_steps();
         let output = TopEntryPoint::SourceFile.parse(&input);
         let (events, looks) = oq3_parser::verif_take_work();
+        let psteps = oq3_parser::verif_take_process_steps();
         let mut steps = 0u64;
         let mut composite = false;
         for s in output.iter() {
@@ -285,10 +287,10 @@ fn oracle_text_inner(text: &str, out: &mut Vec<Failure>) -> TextFacts {
                 }
             }
         }
-        (lexed.len(), nontrivia, kh, steps, events, looks, composite)
+        (lexed.len(), nontrivia, kh, steps, events, looks, composite, psteps)
     });
     match r {
-        Ok((n, nontrivia, kh, steps, events, looks, composite)) => {
+        Ok((n, nontrivia, kh, steps, events, looks, composite, psteps)) => {
             facts.n_nontrivia = nontrivia;
             facts.n_trivia = n - nontrivia;
             facts.kind_hash = kh;
@@ -300,6 +302,14 @@ fn oracle_text_inner(text: &str, out: &mut Vec<Failure>) -> TextFacts {
             }
             if events > EVENTS_PER_TOKEN * t {
                 out.push(Failure::new("C01:work:events-superlinear", detail(text, &format!("{events} events for {nontrivia} tokens"))));
+            }
+            // every event is visited once and every forward-parent link followed once when the
+            // event list is turned into the output
+            if psteps > 2 * events + 8 {
+                out.push(Failure::new(
+                    "C01:work:tree-building-superlinear",
+                    detail(text, &format!("{psteps} event-processing steps for {events} events")),
+                ));
             }
             if looks > LOOKS_PER_TOKEN * t {
                 out.push(Failure::new("C01:work:lookaheads-superlinear", detail(text, &format!("{looks} look-aheads for {nontrivia} tokens"))));
@@ -583,8 +593,31 @@ pub fn run(prop: P, ctx: &RunCtx) {
             let toks = coarse_tokens(s);
             let step = ctx.pick(3usize, 1usize);
             const JUNK: &[&str] = &["№", "}", ")", "mutable", "0x", "\"", "@", "$", "/*", "else", "->"];
-            for i in (0..toks.len()).step_by(step) {
+            for i in 0..toks.len() {
+                // blanks are always visited, the other tokens every `step`-th
+                if !toks[i].trim().is_empty() && i % step != 0 {
+                    continue;
+                }
                 if toks[i].trim().is_empty() {
+                    // a blank between two tokens replaced by an error character glues it to both
+                    // neighbours (`OPENQASM№3.0;`)
+                    for j in ["№", "§", "\\"] {
+                        let mut v: Vec<&str> = toks.clone();
+                        v[i] = j;
+                        let rep = text_case(prop, &v.concat(), "blank-corruption", false);
+                        ctx.eval_local(name, st, rep);
+                        // ... and the blank together with the token after it (`OPENQASM№;`)
+                        // (coarse tokens split `3.0` in three, hence up to three following tokens)
+                        for extra in 1..=3usize {
+                            if i + extra < toks.len() {
+                                let mut v: Vec<&str> = toks.clone();
+                                v[i] = j;
+                                v.drain(i + 1..=i + extra);
+                                let rep = text_case(prop, &v.concat(), "blank-and-token-corruption", false);
+                                ctx.eval_local(name, st, rep);
+                            }
+                        }
+                    }
                     continue;
                 }
                 heartbeat_tick();
